@@ -16,5 +16,5 @@ for st in bdd tbl lru ring wmc sdd up td ord cnf opt comp query ser ffi hash; do
   LLVM_PROFILE_FILE="$W/p_$st.profraw" "$H" $st --seed=1 --cases=$CASES --maxvars=6 --maxops=25 >/dev/null 2>&1 || echo "stream $st exited non-zero"
 done
 "$T/llvm-profdata" merge -sparse "$W"/p_*.profraw -o "$W/all.profdata"
-"$T/llvm-cov" report "$H" -instr-profile="$W/all.profdata" --ignore-filename-regex='(registry|harness/src|rustc|hypergraph)' 2>/dev/null | awk '{print $1, $8, $9, $10, $11, $12, $13}' | column -t | sed 's#^repo/src/##'
+"$T/llvm-cov" report "$H" -instr-profile="$W/all.profdata" --ignore-filename-regex='(registry|harness/src|rustc|hypergraph)' 2>/dev/null | awk '{print $1, $8, $9, $10, $11, $12, $13}' | sed 's#^repo/src/##'
 rm -rf "$W"
